@@ -5,6 +5,7 @@ import (
 
 	"verif/mc/core"
 	_ "verif/mc/props/c02"
+	_ "verif/mc/props/c03"
 	_ "verif/mc/props/c05"
 	_ "verif/mc/props/c06"
 	_ "verif/mc/props/c07"
